@@ -395,7 +395,7 @@ REGISTRY = dict(
           "the machine against a declarative definition of a valid patch for every event sequence over a tiny universe "
           "(Bug_*.cfg: violations found when the machine is broken), certifies the input domains, and replays EVERY diff "
           "returned by the real diff.Diff over D1 (all pairs of short texts), D2 (multi-hunk backbone, generated by TLC) and "
-          "D3 (seeded random, look-alike lines, long files) as a behaviour of the machine; every rejected diff is named and "
+          "D3 (seeded random, diff-syntax and printf-verb look-alike lines, long files) and D4 (the diff that failing cmp / cmpenv / cmp stdout lines of real scripts write to the log, cut out and judged against the texts that were compared) as a behaviour of the machine; every rejected diff is named and "
           "re-confirmed by TLC as an invariant violation with the rejecting prefix as counterexample. Exhaustive inside the "
           "bounds, sampled beyond: the right level for a pure function whose failure modes are arithmetic at hunk and file boundaries."),
     note="trusted: TLC, PatchApply.tla (itself model-checked against ValidPatch), the driver's count-driven tokeniser and "
